@@ -319,8 +319,10 @@ def _host_of(url, infer):
     from ural.infer_redirection import infer_redirection as resolve
     from urllib.parse import urlsplit
 
+    from ural.patterns import CONTROL_CHARS_RE
+
     u = resolve(url) if infer else url
-    s = ensure_protocol(u.strip())
+    s = ensure_protocol(CONTROL_CHARS_RE.sub("", u).strip())
     try:
         return s, urlsplit(s).hostname
     except ValueError:
